@@ -53,8 +53,12 @@ type cliEnv struct {
 	sin     int  // how standard input is handed over: 0 a pipe, 1 a regular file, 2 a regular file whose first line the caller has already consumed
 	stale   bool // -o names a file that already exists and is longer than the output
 	inPlace bool // with sin == 1 and an output file: -o names the very file standard input is redirected from
+	envMode int  // which environment variables point at the cache directory (0: XDG_CACHE_HOME, 1: HOME only, 2: nothing usable, 3: relative path and another locale / time zone)
 	piped   bool // secondary input files (pool files named in the arguments) are handed over as pipes (/dev/fd/N), as a shell's process substitution does
 }
+
+// withEnv returns the environment with another set of environment variables for gts.
+func (e cliEnv) withEnv(mode int) cliEnv { e.envMode = mode; return e }
 
 // withPiped returns the environment in which secondary input files arrive through pipes.
 func (e cliEnv) withPiped(on bool) cliEnv { e.piped = on; return e }
@@ -116,6 +120,14 @@ func (e cliEnv) run(args []string, stdin []byte, outfile bool, exts ...string) c
 	defer cancel()
 	cmd := exec.CommandContext(ctx, gtsBin(), full...)
 	cmd.Env = []string{"HOME=" + e.dir, "XDG_CACHE_HOME=" + filepath.Join(e.dir, "cache"), "TMPDIR=" + filepath.Join(e.dir, "tmp"), "PATH=/usr/bin:/bin", "LANG=C"}
+	switch e.envMode {
+	case 1: // the cache directory follows from HOME alone
+		cmd.Env = []string{"HOME=" + e.dir, "TMPDIR=" + filepath.Join(e.dir, "tmp"), "PATH=/usr/bin:/bin", "LANG=C"}
+	case 2: // no usable place for a cache at all
+		cmd.Env = []string{"HOME=" + filepath.Join(e.dir, "no-such-dir", "deeper"), "XDG_CACHE_HOME=/dev/null/cache", "TMPDIR=" + filepath.Join(e.dir, "tmp"), "PATH=/usr/bin:/bin", "LANG=C.UTF-8"}
+	case 3: // a cache directory given relative to the working directory, another locale
+		cmd.Env = []string{"HOME=" + e.dir, "XDG_CACHE_HOME=cache-rel", "TMPDIR=" + filepath.Join(e.dir, "tmp"), "PATH=/usr/bin:/bin", "LANG=de_DE.UTF-8", "LC_ALL=de_DE.UTF-8", "TZ=Pacific/Kiritimati"}
+	}
 	if d := os.Getenv("GOCOVERDIR"); d != "" {
 		cmd.Env = append(cmd.Env, "GOCOVERDIR="+d) // coverage of a cover-built gts binary (development aid, not used by the checks)
 	}
